@@ -1,5 +1,184 @@
 import GT.Base.JsonQ
-open Lean GT.J
+import GT.Model.ND
+import GT.Model.Obj
+import GT.Model.Vectorised
+import GT.Base.QSqrt
+open Lean GT.J GT GT.Act
 namespace GT.Driver.C04
-def ops : List (String × Handler) := []
+
+/-! JSON encoding of arrays: `{"shape":[2,3],"data":["1","1/2",…]}` (C order). -/
+
+def natArr (j : Json) : R (List Nat) := do
+  let a ← arr j
+  let l ← a.mapM nat
+  return l.toList
+
+def ndOf (j : Json) : R (ND ℚ) := do
+  let s ← natArr (← field j "shape")
+  let d ← qArr (← field j "data")
+  if d.size ≠ sz s then throw s!"bad array: {d.size} entries for shape {s}"
+  return ⟨s, d⟩
+
+def ndf (j : Json) (k : String) : R (ND ℚ) := do ndOf (← field j k)
+def ndsf (j : Json) (k : String) : R (List (ND ℚ)) := do
+  let a ← arr (← field j k)
+  let l ← a.mapM ndOf
+  return l.toList
+def natsf (j : Json) (k : String) : R (List Nat) := do natArr (← field j k)
+
+def ofND (a : ND ℚ) : Json :=
+  Json.mkObj [("shape", .arr (a.shape.toArray.map fun n => .num (JsonNumber.fromNat n))), ("data", ofQArr a.data)]
+
+def liftE (x : Except String (ND ℚ)) : R Json := match x with
+  | .ok a => pure (ofND a)
+  | .error e => throw e
+
+def modeOf (s : String) : R Bcast := match s with
+  | "elementwise" => pure .elementwise
+  | "pairwise" => pure .pairwise
+  | "pairwise_reversed" => pure .pairwiseReversed
+  | _ => throw "ValueError"
+
+def opT (j : Json) : R Json := do return ofND (← ndf j "a").T
+
+def opExpand (j : Json) : R Json := do
+  let a ← ndf j "a"
+  let lo ← natf j "lo"
+  if lo > a.rank then throw "AxisError"
+  return ofND (a.expandRange lo (← natf j "cnt"))
+
+def opSqueeze (j : Json) : R Json := do
+  let a ← ndf j "a"
+  let axes ← natsf j "axes"
+  if axes.any (fun k => a.shape.getD k 0 != 1) then throw "ValueError"
+  return ofND (a.squeezeAxes axes)
+
+def opSwap (j : Json) : R Json := do
+  let a ← ndf j "a"
+  let i ← natf j "i"
+  let k ← natf j "j"
+  if i ≥ a.rank ∨ k ≥ a.rank then throw "AxisError"
+  return ofND (a.swapaxes i k)
+
+def opRoll (j : Json) : R Json := do
+  return ofND ((← ndf j "a").rollBack (← natf j "sh") (← natf j "k"))
+
+def opSub (j : Json) : R Json := do
+  let a ← ndf j "a"
+  let idx ← natsf j "idx"
+  if ¬ Valid (a.shape.take idx.length) idx then throw "IndexError"
+  return ofND (a.sub idx)
+
+def opSelect (j : Json) : R Json := do
+  let a ← ndf j "a"
+  let k ← natf j "k"
+  let i ← natf j "i"
+  if k ≥ a.rank ∨ i ≥ a.shape.getD k 0 then throw "IndexError"
+  return ofND (a.selectAxis k i)
+
+def opSlice (j : Json) : R Json := do
+  let a ← ndf j "a"
+  let k ← natf j "k"
+  let lo ← natf j "lo"
+  let hi ← natf j "hi"
+  if k ≥ a.rank ∨ lo > hi ∨ hi > a.shape.getD k 0 then throw "IndexError"
+  return ofND (a.sliceAxis k lo hi)
+
+def opSetSub (j : Json) : R Json := do
+  let a ← ndf j "a"
+  let idx ← natsf j "idx"
+  let v ← ndf j "v"
+  if ¬ Valid (a.shape.take idx.length) idx then throw "IndexError"
+  if v.shape ≠ a.shape.drop idx.length then throw "ValueError"
+  return ofND (a.setSub idx v)
+
+def opReshape (j : Json) : R Json := do liftE ((← ndf j "a").reshape (← natsf j "shape"))
+
+def opFlatten (j : Json) : R Json := do
+  let a ← ndf j "a"
+  let u ← natf j "u"
+  if u > a.rank then throw "ValueError"
+  return ofND (a.flattenOuter u)
+
+def opStack (j : Json) : R Json := do liftE (ND.stack (← ndsf j "as") (← natf j "k"))
+def opConcat (j : Json) : R Json := do liftE (ND.concat (← ndsf j "as") (← natf j "k"))
+
+def opZip (j : Json) : R Json := do
+  let a ← ndf j "a"
+  let b ← ndf j "b"
+  match (← strf j "f") with
+  | "mul" => liftE (ND.zipBcast (· * ·) a b)
+  | "add" => liftE (ND.zipBcast (· + ·) a b)
+  | "sub" => liftE (ND.zipBcast (· - ·) a b)
+  | "div" =>
+    if b.data.any (· == 0) then throw "DivZero"
+    liftE (ND.zipBcast (· / ·) a b)
+  | _ => throw "unknown ufunc"
+
+def opMatmul (j : Json) : R Json := do liftE (ND.matmul (← ndf j "a") (← ndf j "b"))
+
+def opExpandUnit (j : Json) : R Json := do
+  return ofND (expandUnitAxes (← ndf j "a") (← natf j "unit") (← natf j "new"))
+
+def opSqueezeExcess (j : Json) : R Json := do
+  return ofND (squeezeExcess (← ndf j "a") (← natf j "unit") (← natf j "other"))
+
+/-- `utils.matrix_product` -/
+def opMatrixProduct (j : Json) : R Json := do
+  let a₁ ← ndf j "a1"
+  let a₂ ← ndf j "a2"
+  let u₁ ← natf j "u1"
+  let u₂ ← natf j "u2"
+  if a₁.rank < u₁ ∨ a₂.rank < u₂ then throw "precondition: ndim < unit axes"
+  liftE (matrixProduct a₁ a₂ u₁ u₂ (← modeOf (← strf j "mode")))
+
+/-- `utils.apply_bilinear` -/
+def opBilinear (j : Json) : R Json := do
+  let v₁ ← ndf j "v1"
+  let v₂ ← ndf j "v2"
+  if v₁.rank < 1 ∨ v₂.rank < 1 then throw "precondition: ndim < 1"
+  let form ← match j.getObjVal? "form" with
+    | .ok (.null) => pure none
+    | .ok f => pure (some (← ndOf f))
+    | .error _ => pure none
+  liftE (applyBilinear v₁ v₂ form)
+
+/-- `sqrt(abs(x))` over ℚ; `-1` marks an irrational root (checked before answering) -/
+def rabsQ (x : ℚ) : ℚ := if isSq |x| then rsqrt |x| else -1
+
+def opScaleLast (j : Json) : R Json := do liftE (scaleLast (← ndf j "x") (← ndf j "f"))
+
+/-- `hyperbolic.poincare_to_kleinian` -/
+def opP2k (j : Json) : R Json := do
+  let x ← ndf j "x"
+  if x.rank < 1 then throw "precondition: ndim < 1"
+  liftE (p2kND x)
+
+/-- `hyperbolic.kleinian_to_poincare` -/
+def opK2p (j : Json) : R Json := do
+  let x ← ndf j "x"
+  if x.rank < 1 then throw "precondition: ndim < 1"
+  match normsqND x with
+  | .error e => throw e
+  | .ok nn => if nn.data.any (fun a => !isSq |1 - a|) then throw "irrational-root"
+  liftE (k2pND rabsQ x)
+
+/-- `utils.normalize` (new value of the argument) -/
+def opNormalize (j : Json) : R Json := do
+  let v ← ndf j "v"
+  let f ← ndf j "form"
+  if v.rank < 1 then throw "precondition: ndim < 1"
+  match applyBilinear v v (some f) with
+  | .error e => throw e
+  | .ok sq => if sq.data.any (fun a => !isSq |a|) then throw "irrational-root"
+  liftE (normalizeLit rabsQ v f)
+
+def ops : List (String × Handler) :=
+  [("nd.T", opT), ("nd.expand_range", opExpand), ("nd.squeeze", opSqueeze), ("nd.swapaxes", opSwap),
+   ("nd.roll", opRoll), ("nd.sub", opSub), ("nd.select", opSelect), ("nd.slice", opSlice),
+   ("nd.set_sub", opSetSub), ("nd.reshape", opReshape), ("nd.flatten_outer", opFlatten),
+   ("nd.stack", opStack), ("nd.concat", opConcat), ("nd.zip", opZip), ("nd.matmul", opMatmul),
+   ("c04.expand_unit_axes", opExpandUnit), ("c04.squeeze_excess", opSqueezeExcess),
+   ("c04.matrix_product", opMatrixProduct), ("c04.apply_bilinear", opBilinear),
+   ("c04.scale_last", opScaleLast), ("c04.p2k", opP2k), ("c04.k2p", opK2p), ("c04.normalize", opNormalize)]
 end GT.Driver.C04
